@@ -21,19 +21,41 @@ Inductive expr :=
 | EStart (s : side) (d : dim)            (* <range>.<dim>.start *)
 | EStop (s : side) (d : dim)             (* <range>.<dim>.stop *)
 | EBound (b : bound)                     (* rows / cols / readout_times *)
-| ESub (a b : expr).                     (* a - b *)
+| ESub (a b : expr)                      (* a - b *)
+| ERStart (s : side) (d : dim) (b : bound)   (* _bounds(<range>.<dim>, b)[0]: start, 0 when absent *)
+| ERStop (s : side) (d : dim) (b : bound)    (* _bounds(<range>.<dim>, b)[1]: stop, b when absent *)
+| EConst (z : Z).
 Inductive cmp := CEq | CNe | CLe | CLt | CGe | CGt.
 Inductive pre := PAlways | PBoth3D.      (* isinstance(target, FitRange3D) and isinstance(out, FitRange3D) and ... *)
 Inductive guard :=
 | GCmp (p : pre) (neg : bool) (a : expr) (c : cmp) (b : expr)   (* if p and [not] (a c b): raise ValueError *)
 | GNone (b : bound).                                            (* if b is None: raise ValueError *)
 
-Record checker := { out_guards : list guard; check2d : list guard; check3d : list guard }.
+(* target_first: check_fit_ranges validates the target range before it compares the two ranges *)
+Record checker := { out_guards : list guard; check2d : list guard; check3d : list guard; target_first : bool }.
 
-(* The table of the unchanged tree (what translator/c11.py extracts from it).  The theorems of
-   Proofs/FitnessChecker.v are about this table; Properties/C11.v shows that the regenerated
-   table is this one. *)
+(* not 0 <= start <= stop <= size, as three guards (the chained comparison short-circuits the same way) *)
+Definition tgt_block (d : dim) (b : bound) : list guard :=
+  [ GCmp PAlways true (EConst 0) CLe (ERStart Tgt d b);
+    GCmp PAlways true (ERStart Tgt d b) CLe (ERStop Tgt d b);
+    GCmp PAlways true (ERStop Tgt d b) CLe (EBound b) ].
+(* _length(<range>.<dim>, b) *)
+Definition elen (s : side) (d : dim) (b : bound) : expr := ESub (ERStop s d b) (ERStart s d b).
+Definition len_guard (p : pre) (d : dim) (b : bound) : guard := GCmp p false (elen Tgt d b) CNe (elen Out d b).
+
+(* The table of the tree as repaired (fix: fit ranges compared by length, bounds validated, absent
+   components resolved) = what translator/c11.py extracts from it.  The theorems of
+   Proofs/FitnessChecker.v are about this table; Properties/C11.v shows that the regenerated table
+   is this one. *)
 Definition coded_checker : checker :=
+  {| out_guards := [ len_guard PBoth3D DTime BTimes; len_guard PAlways DRow BRows; len_guard PAlways DCol BCols ];
+     check2d := tgt_block DRow BRows ++ tgt_block DCol BCols;
+     check3d := tgt_block DRow BRows ++ tgt_block DCol BCols ++ [GNone BTimes] ++ tgt_block DTime BTimes;
+     target_first := true |}.
+
+(* The table of the tree before that repair (end points compared instead of lengths, absent
+   components not handled): kept for the witnesses of what the repair removed. *)
+Definition legacy_checker : checker :=
   {| out_guards := [ GCmp PBoth3D false (EStop Tgt DTime) CNe (EStop Out DTime);
                      GCmp PAlways false (EStop Tgt DRow) CNe (EStop Out DRow);
                      GCmp PAlways false (EStop Tgt DCol) CNe (EStop Out DCol) ];
@@ -42,7 +64,8 @@ Definition coded_checker : checker :=
      check3d := [ GCmp PAlways true (EStop Tgt DRow) CLe (EBound BRows);
                   GCmp PAlways true (EStop Tgt DCol) CLe (EBound BCols);
                   GNone BTimes;
-                  GCmp PAlways true (EStop Tgt DTime) CLe (EBound BTimes) ] |}.
+                  GCmp PAlways true (EStop Tgt DTime) CLe (EBound BTimes) ];
+     target_first := false |}.
 
 (* Python values met by the comparisons *)
 Inductive pv := PNone | PInt (z : Z) | PErr.     (* PErr: AttributeError / TypeError while evaluating *)
@@ -60,6 +83,11 @@ Definition pv_of (o : option Z) : pv := match o with Some z => PInt z | None => 
 Definition side_range (e : env) (s : side) : option fitrange :=
   match s with Tgt => Some (e_tgt e) | Out => e_out e end.
 
+Definition dflt (d : Z) (o : option Z) : Z := match o with Some z => z | None => d end.
+
+Definition bound_pv (e : env) (b : bound) : pv :=
+  match b with BRows => PInt (e_rows e) | BCols => PInt (e_cols e) | BTimes => pv_of (e_times e) end.
+
 Fixpoint eval (e : env) (x : expr) : pv :=
   match x with
   | EStart s d => match side_range e s with
@@ -68,10 +96,17 @@ Fixpoint eval (e : env) (x : expr) : pv :=
   | EStop s d => match side_range e s with
                  | Some r => match get_sl r d with Some p => pv_of (snd p) | None => PErr end
                  | None => PErr end
-  | EBound BRows => PInt (e_rows e)
-  | EBound BCols => PInt (e_cols e)
-  | EBound BTimes => pv_of (e_times e)
+  | EBound b => bound_pv e b
   | ESub a b => match eval e a, eval e b with PInt x, PInt y => PInt (x - y) | _, _ => PErr end
+  | ERStart s d _ => match side_range e s with
+                     | Some r => match get_sl r d with Some p => PInt (dflt 0 (fst p)) | None => PErr end
+                     | None => PErr end
+  | ERStop s d b => match side_range e s with
+                    | Some r => match get_sl r d with
+                                | Some p => match snd p with Some z => PInt z | None => bound_pv e b end
+                                | None => PErr end
+                    | None => PErr end
+  | EConst z => PInt z
   end.
 
 (* None = the comparison raises (TypeError: '<=' not supported between NoneType and int) *)
@@ -121,19 +156,16 @@ Definition check (ck : checker) (t o : option fitrange) (rows cols : Z) (times :
   | None => Accept                                      (* if not target_fit_range: return *)
   | Some tm =>
       let e := {| e_tgt := tm; e_out := o; e_rows := rows; e_cols := cols; e_times := times |} in
-      match (match o with Some _ => run_guards e (out_guards ck) | None => None end) with
+      let og := match o with Some _ => run_guards e (out_guards ck) | None => None end in
+      let tg := run_guards e (if is3d tm then check3d ck else check2d ck) in
+      match (if target_first ck then tg else og) with
       | Some r => r
-      | None =>
-          match run_guards e (if is3d tm then check3d ck else check2d ck) with
-          | Some r => r
-          | None => Accept
-          end
+      | None => match (if target_first ck then og else tg) with Some r => r | None => Accept end
       end
   end.
 
 (* ---- the specification: equal extents in every compared dimension, target range inside the target *)
 
-Definition dflt (d : Z) (o : option Z) : Z := match o with Some z => z | None => d end.
 Definition resolve (n : Z) (s : sl) : Z * Z := (dflt 0 (fst s), dflt n (snd s)).
 
 Definition dim_ok (n : Z) (t o : sl) : bool :=
@@ -163,21 +195,6 @@ Definition wf_sl (s : sl) : bool :=
 Definition wf_range (r : fitrange) : bool :=
   match r with FR2 a b => wf_sl a && wf_sl b | FR3 t a b => wf_sl t && wf_sl a && wf_sl b end.
 Definition wf_times (t : option Z) : bool := match t with Some n => 0 <=? n | None => true end.
-
-(* hypotheses of the partial theorem: every compared stop is given, and result and target ranges
-   start at the same index in every compared dimension *)
-Definition stop_given (s : sl) : bool := match snd s with Some _ => true | None => false end.
-Definition same_start (t o : sl) : bool := dflt 0 (fst t) =? dflt 0 (fst o).
-Definition anchored (t o : fitrange) : bool :=
-  match t, o with
-  | FR2 tr tc, FR3 _ orow ocol =>
-      stop_given tr && stop_given tc && stop_given orow && stop_given ocol
-      && same_start tr orow && same_start tc ocol
-  | FR3 tm tr tc, FR3 ot orow ocol =>
-      stop_given tm && stop_given tr && stop_given tc && stop_given ot && stop_given orow && stop_given ocol
-      && same_start tm ot && same_start tr orow && same_start tc ocol
-  | _, _ => false
-  end.
 
 Definition in_domain (t o : fitrange) (rows cols : Z) (times : option Z) : bool :=
   wf_range t && wf_range o && is3d o && (0 <=? rows) && (0 <=? cols) && wf_times times.
@@ -315,6 +332,34 @@ Definition fres_eq (a b : fres) : Prop :=
 Definition fres_eqb (a b : fres) : bool :=
   match a, b with RVal x, RVal y => Qeq_bool x y | RInf, RInf => true | RRaise, RRaise => true | _, _ => false end.
 
+(* ---- which quantities ModelFittingDataTree.__init__ passes to check_fit_ranges as rows / cols /
+   readout_times (regenerated from the two call sites: Gen_C11.src_calls) *)
+Inductive qty :=
+| QTgt (d : dim)        (* the size of the target data read from file along d: len(targets["y"]) ... *)
+| QDet (d : dim)        (* the size of the simulated frame along d: detector geometry / len(readout.times) *)
+| QAbsent.              (* not passed (readout_times of the single-readout call) *)
+Record callsite := { cs_rows : qty; cs_cols : qty; cs_times : qty }.
+Record calls := { call_single : callsite; call_multi : callsite }.
+
+(* the unchanged tree: always the size of the TARGET *)
+Definition coded_calls : calls :=
+  {| call_single := {| cs_rows := QTgt DRow; cs_cols := QTgt DCol; cs_times := QAbsent |};
+     call_multi := {| cs_rows := QTgt DRow; cs_cols := QTgt DCol; cs_times := QTgt DTime |} |}.
+
+(* ---- how the declared weights reach the fitness function (regenerated: Gen_C11.src_weights):
+   is _configure_weights called for single-readout / time-domain targets, and to which shape is a
+   scalar weight expanded in ModelFittingDataTree.fitness *)
+Inductive wshape := ShTarget | ShDetector.    (* target_data.shape / (geometry.row, geometry.col) *)
+(* wc_time_key: the target data and the weights read from file are restricted with the time component
+   of a 3-D target range under THEIR dimension name 'readout_time' (otherwise isel raises) *)
+Record wconf := { wc_single : bool; wc_multi : bool; wc_shape : wshape; wc_time_key : bool }.
+Definition coded_wconf : wconf :=
+  {| wc_single := true; wc_multi := true; wc_shape := ShTarget; wc_time_key := true |}.
+(* the tree before the repairs: weights dropped for time-domain targets, detector-shaped scalar
+   weights, 3-D target ranges unusable *)
+Definition legacy_wconf : wconf :=
+  {| wc_single := true; wc_multi := false; wc_shape := ShDetector; wc_time_key := false |}.
+
 (* ---- the problem object *)
 Inductive wspec := WNone | WScalar (ws : list Q) | WFile (fs : list frame3).
 
@@ -332,13 +377,17 @@ Record fconf := {
 Definition ones (n : nat) : frame := repeat (Some 1) n.
 
 (* weights of pair k as the code builds them (w = what _configure_weights kept) *)
+Definition out_slices (o : fitrange) : sl * sl * sl :=
+  match o with FR3 t r c => (t, r, c) | FR2 r c => ((None, None), r, c) end.
+
 Definition weight_coded (c : fconf) (w : wspec) (k : nat) (n : nat) (trng : fitrange) : option frame :=
+  let '(tm, tr, tc) := out_slices trng in
   match w with
   | WNone => Some (ones n)
   | WScalar ws => match nth_error ws k with Some q => Some (repeat (Some q) n) | None => None end
-  | WFile fs => match nth_error fs k, trng with
-                | Some f, FR2 r cc => Some (flat3 (map (slice2 r cc) f))
-                | _, _ => None
+  | WFile fs => match nth_error fs k with
+                | Some f => Some (flat3 (slice3 tm tr tc f))      (* weights.isel(target range) *)
+                | None => None
                 end
   end.
 
@@ -346,9 +395,6 @@ Definition tshape (c : fconf) : list nat := shape3 (hd [] (fc_tgts c)).
 
 Inductive fobs := OCtor | ORaise | OInf | OVal (q : Q) | OUndef.
 (* OCtor: the constructor raised; ORaise: fitness raised; OUndef: outside the model (shapes differ) *)
-
-Definition out_slices (o : fitrange) : sl * sl * sl :=
-  match o with FR3 t r c => (t, r, c) | FR2 r c => ((None, None), r, c) end.
 
 Definition term_coded (c : fconf) (w : wspec) (k : nat) (sim tgt : frame3) : fres :=
   let '(ot, orow, ocol) := out_slices (fc_orng c) in
@@ -370,34 +416,58 @@ Fixpoint shape_eqb (a b : list nat) : bool :=
 
 Definition nth_shape (l : list nat) (i : nat) : Z := Z.of_nat (nth i l 0%nat).
 
-(* problem = ModelFittingDataTree(...); problem.fitness(x), given the simulated frame of every processor *)
-Definition model_fit (ck : checker) (c : fconf) (sims : list frame3) : fobs :=
-  match fc_trng c with
-  | FR3 _ _ _ => OCtor          (* readout_times=None -> ValueError, or isel(time=...) on dims (processor, readout_time, y, x) *)
-  | FR2 tr tc =>
-      let rows := nth_shape (tshape c) 1 in
-      let cols := nth_shape (tshape c) 2 in
-      let times := if fc_multi c then Some (nth_shape (tshape c) 0) else None in
-      match (if fc_bypass c then Accept else check ck (Some (fc_trng c)) (Some (fc_orng c)) rows cols times) with
-      | Accept =>
-          let w := if fc_multi c then WNone else fc_w c in      (* _configure_weights only on the single-readout path *)
-          let tg := map (fun f => map (slice2 tr tc) f) (fc_tgts c) in
-          let '(ot, orow, ocol) := out_slices (fc_orng c) in
-          let shapes_agree :=
-            forallb (fun st => let '(s, t) := st in
-                     shape_eqb (shape3 (slice3 ot orow ocol s)) (shape3 t))
-                    (combine sims tg) in
-          let chi_scalar_sub :=
-            match fc_ff c, w with
-            | FChi _, WScalar _ => negb ((nth_shape (shape3 (hd [] tg)) 1 =? fc_drows c)%Z
-                                         && (nth_shape (shape3 (hd [] tg)) 2 =? fc_dcols c)%Z)
-            | _, _ => false
-            end in
-          if negb shapes_agree || chi_scalar_sub then OUndef
-          else fobs_of (fitness_loop (term_coded c w) sims tg)
-      | _ => OCtor
-      end
+(* sizes along (time, y, x) *)
+Definition dim_ix (d : dim) : nat := match d with DTime => 0%nat | DRow => 1%nat | DCol => 2%nat end.
+Definition shape_dim (sh : list nat) (d : dim) : Z := nth_shape sh (dim_ix d).
+(* the simulated frame of a processor: (len(readout.times), geometry.row, geometry.col) *)
+Definition dshape (sims : list frame3) : list nat := shape3 (hd [] sims).
+
+Definition qty_val (tsh dsh : list nat) (q : qty) : option Z :=
+  match q with
+  | QTgt d => Some (shape_dim tsh d)
+  | QDet d => Some (shape_dim dsh d)
+  | QAbsent => None
   end.
+
+(* the call of check_fit_ranges made by the constructor *)
+Definition ctor_check (ck : checker) (cl : calls) (c : fconf) (sims : list frame3) : outcome :=
+  let cs := if fc_multi c then call_multi cl else call_single cl in
+  let tsh := tshape c in
+  let dsh := dshape sims in
+  check ck (Some (fc_trng c)) (Some (fc_orng c))
+        (dflt 0 (qty_val tsh dsh (cs_rows cs))) (dflt 0 (qty_val tsh dsh (cs_cols cs)))
+        (qty_val tsh dsh (cs_times cs)).
+
+(* problem = ModelFittingDataTree(...); problem.fitness(x), given the simulated frame of every processor *)
+Definition weights_kept (wc : wconf) (c : fconf) : wspec :=
+  if (if fc_multi c then wc_multi wc else wc_single wc) then fc_w c else WNone.
+
+Definition model_fit (ck : checker) (cl : calls) (wc : wconf) (c : fconf) (sims : list frame3) : fobs :=
+  (* a 3-D target range: readout_times=None -> ValueError for single-readout targets; without the
+     'readout_time' key isel(time=...) raises on dims (processor, readout_time, y, x) *)
+  if is3d (fc_trng c) && negb (wc_time_key wc && fc_multi c) then OCtor
+  else
+    let '(tm, tr, tc) := out_slices (fc_trng c) in
+    match (if fc_bypass c then Accept else ctor_check ck cl c sims) with
+    | Accept =>
+        let w := weights_kept wc c in
+        let tg := map (slice3 tm tr tc) (fc_tgts c) in            (* targets.isel(target range) *)
+        let '(ot, orow, ocol) := out_slices (fc_orng c) in
+        let shapes_agree :=
+          forallb (fun st => let '(s, t) := st in
+                   shape_eqb (shape3 (slice3 ot orow ocol s)) (shape3 t))
+                  (combine sims tg) in
+        let chi_scalar_sub :=
+          (* a detector-shaped scalar weight cannot divide a smaller region (numpy broadcasting error) *)
+          match wc_shape wc, fc_ff c, w with
+          | ShDetector, FChi _, WScalar _ => negb ((nth_shape (shape3 (hd [] tg)) 1 =? fc_drows c)%Z
+                                                   && (nth_shape (shape3 (hd [] tg)) 2 =? fc_dcols c)%Z)
+          | _, _, _ => false
+          end in
+        if negb shapes_agree || chi_scalar_sub then OUndef
+        else fobs_of (fitness_loop (term_coded c w) sims tg)
+    | _ => OCtor
+    end.
 
 (* ---- the declared figure of merit (the specification): all targets, declared pairing, declared
    ranges on both sides, declared weights in every term, single- and multi-readout alike.
@@ -422,14 +492,99 @@ Definition term_declared (c : fconf) (k : nat) (sim tgt : frame3) : fres :=
   | Some wf => apply_ff (fc_ff c) s t wf
   end.
 
+(* What the declared ranges ask for in one dimension, given the size nt of the target data and the
+   size nd of the simulated frame along it (open components are resolved against the array they
+   index).  MustReject: the target range exceeds the target, or the two ranges select regions of
+   different extent.  DontCare: the result range runs past the simulated frame while the region it
+   selects happens to have the target's extent (the declared lengths differ: refusing is fine,
+   accepting is harmless). *)
+Inductive verdict := MustAccept | MustReject | DontCare.
+
+Definition sl_inside (n : Z) (s : sl) : bool :=
+  let '(a, b) := resolve n s in ((0 <=? a) && (a <=? b) && (b <=? n))%Z.
+
+Definition dim_verdict (nt nd : Z) (t o : sl) : verdict :=
+  let '(ts, te) := resolve nt t in
+  let '(os, oe) := resolve nd o in
+  if negb (sl_inside nt t) then MustReject
+  else if (oe <=? nd)%Z then (if (te - ts =? oe - os)%Z then MustAccept else MustReject)
+  else if (te - ts =? Z.min oe nd - Z.min os nd)%Z then DontCare else MustReject.
+
+Definition vand (a b : verdict) : verdict :=
+  match a, b with
+  | MustReject, _ | _, MustReject => MustReject
+  | MustAccept, MustAccept => MustAccept
+  | _, _ => DontCare
+  end.
+
+(* a 2-D target range leaves the time axis of the target whole; a 3-D target range on single-readout
+   (2-D) target data is not judged *)
+Definition fit_verdict (c : fconf) (sims : list frame3) : verdict :=
+  let tsh := tshape c in
+  let dsh := dshape sims in
+  let dv d := dim_verdict (shape_dim tsh d) (shape_dim dsh d) in
+  match fc_trng c, fc_orng c with
+  | FR2 tr tc, FR3 ot orow ocol =>
+      vand (dv DTime (None, None) ot) (vand (dv DRow tr orow) (dv DCol tc ocol))
+  | FR3 tm tr tc, FR3 ot orow ocol =>
+      if fc_multi c then vand (dv DTime tm ot) (vand (dv DRow tr orow) (dv DCol tc ocol)) else DontCare
+  | _, FR2 _ _ => DontCare
+  end.
+
+(* rectangular arrays of a given shape (every numpy array is) *)
+Definition rect3b (T R C : nat) (f : frame3) : bool :=
+  Nat.eqb (length f) T
+  && forallb (fun p => Nat.eqb (length p) R && forallb (fun row : list cell => Nat.eqb (length row) C) p) f.
+Definition rect_sh (sh : list nat) (f : frame3) : bool := rect3b (nth 0 sh 0%nat) (nth 1 sh 0%nat) (nth 2 sh 0%nat) f.
+
+(* all target files are rectangular of one shape, all simulated frames are rectangular of one shape =
+   the declared geometry, no empty axis *)
+Definition uniform (c : fconf) (sims : list frame3) : bool :=
+  forallb (rect_sh (tshape c)) (fc_tgts c)
+  && forallb (rect_sh (dshape sims)) sims
+  && (shape_dim (dshape sims) DRow =? fc_drows c)%Z && (shape_dim (dshape sims) DCol =? fc_dcols c)%Z
+  && negb (existsb (Nat.eqb 0) (tshape c)) && negb (existsb (Nat.eqb 0) (dshape sims)).
+
+(* the hypotheses under which the model is shown to meet the specification = the complement of the
+   open findings about the ranges: the result range lies inside the simulated frame and an open
+   result stop means the same size as the target's (C11-F6d); with a 2-D target range the result
+   selects as many readout times as the target has (C11-F6e) *)
+Definition stop_given (s : sl) : bool := match snd s with Some _ => true | None => false end.
+Definition frame_dim_ok (nt nd : Z) (o : sl) : bool := sl_inside nd o && ((nt =? nd)%Z || stop_given o).
+Definition frame_covers (c : fconf) (sims : list frame3) : bool :=
+  let tsh := tshape c in
+  let dsh := dshape sims in
+  let '(ot, orow, ocol) := out_slices (fc_orng c) in
+  frame_dim_ok (shape_dim tsh DTime) (shape_dim dsh DTime) ot
+  && frame_dim_ok (shape_dim tsh DRow) (shape_dim dsh DRow) orow
+  && frame_dim_ok (shape_dim tsh DCol) (shape_dim dsh DCol) ocol.
+Definition verdict_eqb (a b : verdict) : bool :=
+  match a, b with MustAccept, MustAccept | MustReject, MustReject | DontCare, DontCare => true | _, _ => false end.
+Definition time_2d_ok (c : fconf) (sims : list frame3) : bool :=
+  match fc_trng c, fc_orng c with
+  | FR2 _ _, FR3 ot _ _ =>
+      verdict_eqb (dim_verdict (shape_dim (tshape c) DTime) (shape_dim (dshape sims) DTime) (None, None) ot) MustAccept
+  | _, _ => true
+  end.
+
 Definition spec_fit (c : fconf) (sims : list frame3) : option fobs :=
-  let rows := nth_shape (tshape c) 1 in
-  let cols := nth_shape (tshape c) 2 in
-  let times := if is3d (fc_trng c) then Some (nth_shape (tshape c) 0) else None in
-  if negb (in_domain (fc_trng c) (fc_orng c) rows cols times) then None
-  else if spec_ok (fc_trng c) (fc_orng c) rows cols times
-       then Some (fobs_of (declared_sum (term_declared c) sims (fc_tgts c)))
-       else Some OCtor.
+  let tsh := tshape c in
+  if negb (in_domain (fc_trng c) (fc_orng c) (shape_dim tsh DRow) (shape_dim tsh DCol) (Some (shape_dim tsh DTime))
+           && uniform c sims) then None
+  else match fit_verdict c sims with
+       | MustAccept => Some (fobs_of (declared_sum (term_declared c) sims (fc_tgts c)))
+       | MustReject => Some OCtor
+       | DontCare => None
+       end.
+
+(* the declared target range lies inside the target data (resolved against the target's own size) *)
+Definition target_inside (c : fconf) : bool :=
+  let tsh := tshape c in
+  match fc_trng c with
+  | FR2 tr tc => sl_inside (shape_dim tsh DRow) tr && sl_inside (shape_dim tsh DCol) tc
+  | FR3 tm tr tc => sl_inside (shape_dim tsh DTime) tm && sl_inside (shape_dim tsh DRow) tr
+                    && sl_inside (shape_dim tsh DCol) tc
+  end.
 
 (* observed vs expected: exact, except that one float division (reduced chi squared) may round *)
 Definition q_close (a b : Q) : bool :=
@@ -445,9 +600,10 @@ Definition is_exact (f : fitfun) : bool := match f with FChi _ => false | _ => t
 
 Record fit_case := { ft_c : fconf; ft_sims : list frame3; ft_obs : fobs }.
 
-Definition fit_mismatch (ck : checker) (x : fit_case) : bool :=
-  negb (fobs_agree (is_exact (fc_ff (ft_c x))) (model_fit ck (ft_c x) (ft_sims x)) (ft_obs x)).
-Definition fit_mismatches (ck : checker) (xs : list fit_case) : list Z := indices_where (fit_mismatch ck) xs 0.
+Definition fit_mismatch (ck : checker) (cl : calls) (wc : wconf) (x : fit_case) : bool :=
+  negb (fobs_agree (is_exact (fc_ff (ft_c x))) (model_fit ck cl wc (ft_c x) (ft_sims x)) (ft_obs x)).
+Definition fit_mismatches (ck : checker) (cl : calls) (wc : wconf) (xs : list fit_case) : list Z :=
+  indices_where (fit_mismatch ck cl wc) xs 0.
 
 Definition fit_violation (x : fit_case) : bool :=
   match spec_fit (ft_c x) (ft_sims x) with
